@@ -1,6 +1,6 @@
 SPECIFICATION Spec
-CONSTANT Depth = 5
+CONSTANT Depth = 3
 CONSTANT PeerHandleBase = 0
-CONSTANT Side = "client"
+CONSTANT Side = "listener"
 INVARIANT Emit
 CHECK_DEADLOCK FALSE
